@@ -7,7 +7,7 @@ PID = 'C13'
 GENS = ['vpk']
 DRIVERS = ['drv_c13']
 PROPS = 'Srctools.Props.C13'
-RULE = ("a case = (directory|single-file archive, history of <= 25 operations open(r/w/a, dir_data_limit)+__enter__/new_file/add_file/"
+RULE = ("[argument forms: half of the histories hand the same values over as pathlib.Path/os.PathLike, OpenModes, bytearray overwritten by the caller after the call, lists instead of tuples, positional/omitted optional arguments; the model sees the values] a case = (directory|single-file archive, history of <= 25 operations open(r/w/a, dir_data_limit)+__enter__/new_file/add_file/"
         "FileInfo.write/del/write_dirfile/__exit__(normal|exception)/contains/check, on real temp folders). Sizes from {0,1,15,16,17,1023,1024,1025,65535,"
         "65536,307207} plus random 0..2100, limits {None,0,16,1024}, archive indexes {None,0,1,7}, names from an ASCII+surrogateescape "
         "pool with empty folder/name/extension parts and parts of every boundary length 0,1,2,15..17,31..33,63..65,127..129,191..193,255..257,"
@@ -26,7 +26,8 @@ TRUSTED = ["model: lean/Srctools/Model/C13.lean (hand-written from vpk.py; FileI
            "(compared with zlib through every digest of the correspondence)"]
 NOT_MODELLED = ["contents of the directory file after struct.error inside write_dirfile (needs an archive index >= 65536 or >= 4 GiB of data; excluded by C13_fits_of_size)",
                 "relative_to/root argument of new_file/add_file, add_folder, extract_all (loops over add_file/read with os.walk, os.path.relpath, os.makedirs: covered by the direct test _folder_property, not by the Lean model); script_write",
-                "several VPK objects / stale FileInfo objects alive at once; version-2 archives are read (header skipped) but never written",
+                "data given as memoryview (write() accepts it, read() before a reopen raises TypeError; annotated type is bytes); mutating the archive while iterating it (RuntimeError as coded)",
+                "several VPK objects / stale FileInfo objects alive at once (only the direct aliasing test: a stale FileInfo keeps reading, writing through it does not disturb the new handle); version-2 archives are read (header skipped) but never written",
                 "os.path functions on non-POSIX platforms"]
 ASSUMPTIONS = ["zlib.crc32 returns values below 2**32 (hypothesis hcrc of C13_fits_of_size / C13_refine_sized)",
                "zlib.crc32(b, zlib.crc32(a)) == zlib.crc32(a + b) (verify() continues the checksum over preload and archive part)",
@@ -71,7 +72,10 @@ def _summary(case):
             out.append(['plant', len(o[1]) // 2])
         else:
             out.append(o)
-    return {'single': case['single'], 'ops': out}
+    r = {'single': case['single'], 'ops': out}
+    if case.get('forms'):
+        r['forms'] = case['forms']
+    return r
 
 
 def grid_cases(rng):
@@ -292,6 +296,11 @@ def _all_cases(ctx):
     coll = list(collision_cases(rng))
     ctx.count('same-length same-CRC overwrite histories (all placements)', len(coll))
     cases += coll
+    # the directed histories also run under non-canonical argument forms (same denoted values)
+    nfix = len(fixed_witnesses())
+    for c in cases[nfix:]:
+        if rng.random() < 0.4:
+            c['forms'] = U.gen_forms(rng)
     n = ctx.budget(1000, 16000)
     cases += [U.gen_case(rng) for _ in range(n)]
     return cases
@@ -299,6 +308,13 @@ def _all_cases(ctx):
 
 def _tally(ctx, case):
     ctx.count('archive kind: ' + ('single-file' if case['single'] else 'directory'))
+    f = case.get('forms')
+    if f:
+        ctx.count('argument forms: path as ' + f['path'] + ', mode as ' + f['mode'])
+        ctx.count('argument forms: data as ' + f['data'] + (' (mutated after the call)' if f['data'] == 'bytearray' else ''))
+        ctx.count('argument forms: tuple names as ' + f['names'] + (', optional arguments positional' if f['pos'] else ''))
+    else:
+        ctx.count('argument forms: canonical (str path, str mode, bytes, tuples, keywords)')
     for o in case['ops']:
         ctx.count('op ' + o[0] + (' ' + o[1] if o[0] == 'open' else (' after an exception' if o[1] else ' normal') if o[0] == 'exit' else ''))
         if o[0] == 'open':
@@ -359,7 +375,7 @@ def correspond(ctx, drivers):
             break
         if r['dirs'] and len(r['dirs'][-1]) < 3000 and c['ops'][-3][0] in ('flush', 'exit') and not r['fails']:
             for m in U.mutants(rng, r['dirs'][-1], 1):
-                planted.append({'single': c['single'], 'ops': c['ops'][:-2] + [['plant', m.hex()], ['open', 'r', None], ['check'],
+                planted.append({'single': c['single'], **({'forms': c['forms']} if c.get('forms') else {}), 'ops': c['ops'][:-2] + [['plant', m.hex()], ['open', 'r', None], ['check'],
                                                                             ['open', 'a', 16], ['check'],
                                                                             ['add', U.spell('t', 'zz', 'new', 'e'), ['g', 3, 40], 1],
                                                                             ['flush'], ['check'], ['open', 'r', None], ['check']]})
@@ -442,11 +458,21 @@ def _fails_of(case):
 
 
 def _shrink(case, key):
+    def mk(ops, forms=True):
+        c = {'single': case['single'], 'ops': ops}
+        if forms and case.get('forms'):
+            c['forms'] = case['forms']
+        return c
+
     def fails(ops):
-        return any(k == key for k, _, _ in _fails_of({'single': case['single'], 'ops': ops}))
+        return any(k == key for k, _, _ in _fails_of(mk(ops)))
     if not fails(case['ops']):
         return case
-    return {'single': case['single'], 'ops': ddmin(case['ops'], fails, budget=150)}
+    small = ddmin(case['ops'], fails, budget=150)
+    # does it also fail with the canonical argument forms?
+    if case.get('forms') and any(k == key for k, _, _ in _fails_of(mk(small, False))):
+        return mk(small, False)
+    return mk(small)
 
 
 def _names_property(ctx):
@@ -686,6 +712,97 @@ def _with_property(ctx):
                                         ctx.witness('with', f'{nm!r} missing / wrong after the with block', case)
 
 
+def _argforms_property(ctx):
+    """Unusual-but-legal argument forms and aliasing, established on the unchanged tree:
+    ACCEPTED (must behave like the canonical form): path as str / pathlib.Path / os.PathLike; mode as 'r'/'w'/'a' or
+    OpenModes; dir_data_limit omitted == 1024, version omitted == 1; data as bytes or bytearray (the slices taken by write()
+    are copies: later mutation by the caller must not reach the archive); names as str, 2/3-tuple or 2/3-list;
+    arch_index / root positional; write(data) == write(data, None); add_file(...) == add_file(..., arch_index=0); the same
+    bytes object / the same name object used for several calls; writing the same FileInfo twice with the same object;
+    a FileInfo obtained before a reopen keeps reading its data and writing through it does not disturb the new handle.
+    REJECTED today (outside the domain, not tested): path as bytes (TypeError), mode positional (TypeError, keyword-only),
+    mode 'W' (ValueError), data as str (TypeError), data as memoryview (accepted by write() but read() before a reopen
+    raises TypeError and the preload aliases the buffer: the annotated type is bytes), adding/deleting while iterating
+    `for info in vpk` / filenames() (RuntimeError: dictionary changed size; iterate over list(vpk) instead)."""
+    from srctools.vpk import VPK, OpenModes
+    import os, pathlib
+    rng = ctx.rng
+    payload = {('a', 'pre', 'txt'): U.gen_bytes(1, 10), ('a', 'mid', 'txt'): U.gen_bytes(2, 700), ('', 'big', ''): U.gen_bytes(3, 70000)}
+
+    def build(w, forms, limit, idx):
+        """the same little history under the given forms; returns the observation after reopen + raw disk bytes"""
+        fw = U.ImplWorld(w.single, forms)
+        fw.dir, fw.path = w.dir, w.path
+        outs = [fw.step(['open', 'w', limit])]
+        for t, d in payload.items():
+            outs.append(fw.step(['add', U.spell('t', *t), ['x', d.hex()], idx]))
+        outs.append(fw.step(['write', U.spell('p', 'a', 'pre', 'txt'), ['x', payload[('a', 'mid', 'txt')].hex()], idx]))
+        outs.append(fw.step(['del', U.spell('t', 'a', 'mid', 'txt')]))
+        outs.append(fw.step(['has', U.spell('t', '', 'big', '')]))
+        outs.append(fw.step(['exit', False]))
+        outs.append(fw.step(['open', 'r', limit]))
+        outs.append(fw.step(['check']))
+        return outs, fw.form_fail
+
+    for single in (False, True):
+        for limit, idx in ((16, None), (0, 1), (1024, 0), (None, 7)):
+            with U.ImplWorld(single) as w0:
+                canon, _ = build(w0, None, limit, idx)
+            for forms in ({'path': 'Path'}, {'path': 'PathLike'}, {'mode': 'enum'}, {'data': 'bytearray'}, {'names': 'list'},
+                          {'pos': True}, {'omit': True}, U.gen_forms(rng)):
+                ctx.count('argforms: history under one non-canonical form vs canonical')
+                with U.ImplWorld(single) as w1:
+                    got, ff = build(w1, forms, limit, idx)
+                if ff or got != canon:
+                    n = next((i for i, (a, b) in enumerate(zip(got, canon)) if a != b), -1)
+                    ctx.witness('argforms', f'arguments given as {forms} behave differently from the canonical forms '
+                                f'(single={single}, limit={limit}, index={idx}): {ff or (str(got[n])[:200] + " vs " + str(canon[n])[:200])}',
+                                {'argforms_test': True, 'forms': forms})
+    # defaults
+    for single in (False, True):
+        with U.ImplWorld(single) as w:
+            ctx.count('argforms: omitted optional arguments equal the documented defaults')
+            a = VPK(w.path, mode='w'); b = VPK(w.path, mode='w', dir_data_limit=1024, version=1)
+            if (a.dir_limit, a.version, a.mode) != (b.dir_limit, b.version, b.mode) or a.mode is not OpenModes.WRITE:
+                ctx.witness('argforms', 'omitted dir_data_limit/version differ from the documented defaults', {'argforms_test': True})
+            d = U.gen_bytes(5, 3000)
+            a.add_file('x/one', d); a.add_file('x/two', d, arch_index=0)
+            i1, i2 = a['x/one'], a['x/two']
+            if (i1.arch_index, i1.arch_len, len(i1.start_data)) != (i2.arch_index, i2.arch_len, len(i2.start_data)):
+                ctx.witness('argforms', 'add_file without arch_index differs from arch_index=0', {'argforms_test': True})
+    # aliasing: the same objects used for several calls; stale FileInfo across a reopen
+    for single in (False, True):
+        for limit, idx in ((16, None), (16, 1), (None, 0)):
+            ctx.count('argforms: aliasing (same data / name object reused, same FileInfo written twice, stale FileInfo)')
+            with U.ImplWorld(single) as w:
+                case = {'argforms_test': True, 'single': single, 'limit': limit, 'idx': idx}
+                v = VPK(pathlib.Path(w.path), mode=OpenModes.WRITE, dir_data_limit=limit)
+                data = U.gen_bytes(9, 500); keep = bytes(data)
+                name1, name2 = ['al', 'one.bin'], ('al', 'two', 'bin')
+                v.add_file(name1, data, arch_index=idx); v.add_file(name2, data, arch_index=idx)       # same bytes object twice
+                info = v[name1]
+                info.write(data, idx); info.write(data, idx)                                           # same FileInfo, same object
+                if v[name1] is not info or name1 != ['al', 'one.bin'] or data != keep:
+                    ctx.witness('argforms', 'a name / data argument object was changed or the FileInfo replaced', case)
+                other = U.gen_bytes(10, 500)
+                info.write(other, idx); info.write(other, idx)
+                if info.read() != other or v[name2].read() != keep or not v.verify_all():
+                    ctx.witness('argforms', 'writing the same object repeatedly / to two files: wrong contents', case)
+                v.write_dirfile()
+                stale = v[name2]
+                v2 = VPK(w.path, mode='a', dir_data_limit=limit)
+                if stale.read() != keep:
+                    ctx.witness('argforms', 'a FileInfo obtained before the reopen no longer reads its data', case)
+                stale.write(U.gen_bytes(11, 900), idx)              # through the OLD object
+                if v2[name2].read() != keep or v2[name1].read() != other or not v2.verify_all():
+                    ctx.witness('argforms', 'writing through a FileInfo of the previous VPK object corrupted the newly opened one', case)
+                v2.add_file(('al', 'three.bin'), other, arch_index=idx); v2.write_dirfile()
+                r = VPK(w.path)
+                if sorted(r.filenames()) != ['al/one.bin', 'al/three.bin', 'al/two.bin'] or r[name2].read() != keep \
+                        or r['al/three.bin'].read() != other or not r.verify_all():
+                    ctx.witness('argforms', 'after the new handle saved, the archive does not hold what the new handle had', case)
+
+
 def _special_known(w):
     """open findings whose witness is not an operation history"""
     from srctools.vpk import VPK
@@ -730,6 +847,7 @@ def search(ctx):
     _damage_property(ctx)
     _folder_property(ctx)
     _with_property(ctx)
+    _argforms_property(ctx)
 
 
 def replay(ctx, payload):
@@ -737,6 +855,8 @@ def replay(ctx, payload):
     if not isinstance(inp, dict) or 'ops' not in inp:
         if isinstance(inp, dict) and ('folder_test' in inp or 'root_test' in inp):
             n0 = len(ctx.witnesses); _folder_property(ctx); return len(ctx.witnesses) == n0
+        if isinstance(inp, dict) and 'argforms_test' in inp:
+            n0 = len(ctx.witnesses); _argforms_property(ctx); return len(ctx.witnesses) == n0
         if isinstance(inp, dict) and 'with_test' in inp:
             n0 = len(ctx.witnesses); _with_property(ctx); return len(ctx.witnesses) == n0
         if isinstance(inp, dict) and 'where' in inp:
